@@ -4,3 +4,4 @@ pub mod resolver;
 pub mod lex488;
 pub mod bigint;
 pub mod decnum;
+pub mod respdec;
